@@ -8,7 +8,7 @@
 From Coq Require Import NArith Bool List Lia.
 From RS.Gen Require Import Prelude GenConsts.
 From RS.Model Require Import Field Tables Sched Layout Kernels.
-From RS.Proofs Require Import FieldFacts Param Linear.
+From RS.Proofs Require Import FieldFacts Param Linear SchedEquiv.
 Import ListNotations.
 Local Open Scope N_scope.
 
@@ -25,6 +25,15 @@ Theorem C03_mul_portable : forall m b, m <= 65535 -> length b = 64%nat -> Forall
   naive_mul_block m b = spec_mul_block m b /\ nosimd_mul_block m b = spec_mul_block m b.
 Proof. intros; split; [apply naive_mul_block_spec|apply nosimd_mul_block_spec]; assumption. Qed.
 Print Assumptions C03_mul_portable.
+
+(* untruncated transforms: every engine computes exactly what the reference engine computes,
+   on ALL outputs, for any element type (symbols or whole shards), any size 2^k <= 2^16, any
+   skew_delta and any contents.  (Truncated transforms: instances below.) *)
+Theorem C03_fft_untruncated : forall T (ops : elt_ops T) e k sd l, (k <= 16)%nat -> N.of_nat (length l) = 2 ^ N.of_nat k ->
+  fft ops e (2 ^ N.of_nat k) (2 ^ N.of_nat k) sd l = fft ops Naive (2 ^ N.of_nat k) (2 ^ N.of_nat k) sd l /\
+  ifft ops e (2 ^ N.of_nat k) (2 ^ N.of_nat k) sd l = ifft ops Naive (2 ^ N.of_nat k) (2 ^ N.of_nat k) sd l.
+Proof. intros; split; [apply fft_engines_agree|apply ifft_engines_agree]; assumption. Qed.
+Print Assumptions C03_fft_untruncated.
 
 Theorem C03_mul_instances :
   forallb (fun m => forallb (fun b => forallb (fun e => leq (mul_block e m b) (spec_mul_block m b)) engines) blocks)
